@@ -81,6 +81,13 @@ class World(S.WorldComponent):
     thorough = (250, 400)
     oracles = [oracle_alive]
 
+    def corpus(self):
+        # handlers that create / close channels from inside `open` / `close` events at the moments the transport walks
+        # its channel tables while handling a datagram or a timer (oracle-only runs: nothing may escape)
+        from harness.props import C13
+        extra = [c for c in C13.directed_lifecycle_cases() if c["profile"] == "directed-reentrant"]
+        return super().corpus() + extra
+
     def shrink(self, case):
         # hostile datagrams are relative to the state they were generated in (fresh vs stale TSNs):
         # only prefixes of the schedule keep their meaning
